@@ -11,19 +11,26 @@
 EXTENDS Naturals, Sequences
 
 DataLayouts == <<
-  [id |-> "lane_req_raw_value/0", codec |-> "lane_req_raw_value", bad |-> "ok", at |-> 0,
+  [id |-> "lane_req_raw_value/0", codec |-> "lane_req_raw_value", rep |-> TRUE, bad |-> "ok", at |-> 0,
    atoms |-> << [n |-> 1, s |-> FALSE, need |-> 1], [n |-> 11, s |-> FALSE, need |-> 11] >>],
-  [id |-> "lane_req_raw_value/1", codec |-> "lane_req_raw_value", bad |-> "ok", at |-> 0,
+  [id |-> "lane_req_raw_value/1", codec |-> "lane_req_raw_value", rep |-> TRUE, bad |-> "ok", at |-> 0,
    atoms |-> << [n |-> 17, s |-> FALSE, need |-> 17] >>],
-  [id |-> "lane_req_raw_value/2", codec |-> "lane_req_raw_value", bad |-> "ok", at |-> 0,
+  [id |-> "lane_req_raw_value/2", codec |-> "lane_req_raw_value", rep |-> TRUE, bad |-> "ok", at |-> 0,
    atoms |-> << [n |-> 1, s |-> FALSE, need |-> 1] >>],
-  [id |-> "lane_req_raw_value/0#tag", codec |-> "lane_req_raw_value", bad |-> "tag", at |-> 1,
+  [id |-> "lane_req_raw_value/0#tag", codec |-> "lane_req_raw_value", rep |-> TRUE, bad |-> "tag", at |-> 1,
    atoms |-> << [n |-> 1, s |-> FALSE, need |-> 1], [n |-> 11, s |-> FALSE, need |-> 11] >>],
-  [id |-> "lane_req_raw_value/0#len", codec |-> "lane_req_raw_value", bad |-> "len", at |-> 2,
+  [id |-> "lane_req_raw_value/0#len", codec |-> "lane_req_raw_value", rep |-> TRUE, bad |-> "len", at |-> 2,
    atoms |-> << [n |-> 1, s |-> FALSE, need |-> 1], [n |-> 11, s |-> FALSE, need |-> 1] >>],
-  [id |-> "lane_req_value/0", codec |-> "lane_req_value", bad |-> "ok", at |-> 0,
+  [id |-> "lane_req_value/0", codec |-> "lane_req_value", rep |-> TRUE, bad |-> "ok", at |-> 0,
    atoms |-> << [n |-> 1, s |-> FALSE, need |-> 1], [n |-> 8, s |-> FALSE, need |-> 8], [n |-> 4, s |-> TRUE, need |-> 0] >>],
-  [id |-> "lane_req_value/1", codec |-> "lane_req_value", bad |-> "ok", at |-> 0,
+  [id |-> "lane_req_value/1", codec |-> "lane_req_value", rep |-> TRUE, bad |-> "ok", at |-> 0,
    atoms |-> << [n |-> 17, s |-> FALSE, need |-> 17] >>]
+>>
+
+\* frames for Gen_Framing: [codec, len, rep, fields = << [role, vals] >>]
+GenFrames == <<
+  [codec |-> "lane_req_raw_value", len |-> 12, rep |-> TRUE, fields |-> << [role |-> "tag", vals |-> 2], [role |-> "len", vals |-> 3] >>],
+  [codec |-> "lane_req_raw_value", len |-> 17, rep |-> TRUE, fields |-> << [role |-> "tag", vals |-> 2] >>],
+  [codec |-> "lane_req_raw_value", len |-> 1, rep |-> FALSE, fields |-> << [role |-> "tag", vals |-> 2] >>]
 >>
 =============================================================================
